@@ -45,6 +45,10 @@ impl Read for PieceReader {
 impl BufRead for PieceReader {
     fn fill_buf(&mut self) -> std::io::Result<&[u8]> {
         self.fills.set(self.fills.get() + 1);
+        if self.zero_run > 200_000 {
+            // the caller keeps asking without consuming: break the spin with an I/O error so that it is recorded instead of hanging the run
+            return Err(std::io::Error::new(std::io::ErrorKind::Other, "SPIN: 200000 consecutive zero-byte consumes"));
+        }
         let vis = self.visible.get().min(self.data.len());
         if self.pos >= self.cur_end.min(vis) {
             // next piece
